@@ -554,6 +554,7 @@ def gen_burst_case(rng, deb=None):
             s.dump()
         else:
             s.restart()
+            s.exec(3, X + "/vim")      # (a restarted daemon knows no editors: the editor is started again)
     if rng.random() < 0.15:
         # a pending file whose directory has meanwhile been replaced by a regular file (a checkout that turns a
         # directory into a file): it is gone - an expected condition, the pass goes on with what is queued behind it
@@ -569,7 +570,7 @@ def gen_burst_case(rng, deb=None):
     s.dump()
     s.timeout()
     s.dump()
-    return s.text(), {"deb": deb}
+    return s.text(), {"deb": deb, "all_writes_queued": True}
 
 
 def gen_debounce_case(rng):
@@ -630,6 +631,10 @@ def gen_collision_case(rng):
         s.put("%s/k/store/%s/%s%s%s" % (R, rel, ver, "-%d" % k if k else "", ext), "" if rng.random() < 0.3 else "old %d" % k)
     if rng.random() < 0.3:
         s.mkdirp("%s/k/store/%s/%s-%d%s" % (R, rel, ver, rng.randint(1, 3), ext))   # a directory takes a name
+    if rng.random() < 0.2:
+        # a symbolic link whose target does not exist takes a name (a hand-made alias, a broken restore): it is an
+        # entry of the store like any other - not followed, not replaced
+        s.add("symlink %s %s %d" % (hexs("%s/k/store/%s/%s%s%s" % (R, rel, ver, rng.choice(["", "-1", "-2"]), ext)), hexs("/kvnx/gone"), CLOCK0 - 7))
     s.start()
     s.exec(3, X + "/vim")
     s.dump()
